@@ -612,8 +612,24 @@ def slist_eq(ctx, a, b):
     s, o = (a, b) if isinstance(a, SList) else (b, a)
     if not isinstance(o, (list, tuple)):
         return False
-    # symbolic list against a concrete-length one: lengths must agree
-    raise Unsupported('equality of symbolic-length list with concrete-length list')
+    # symbolic list against a concrete-length one: equal iff the unknown prefix has exactly the missing number of
+    # elements and all elements agree
+    o = list(o)
+    k = len(o) - len(s.tail)
+    if k < 0:
+        return False
+    s2 = s
+    for _ in range(k):
+        s2 = slist_materialize(ctx, s2, inplace=False)
+    ncond = (s.n == k) if not isinstance(s.n, int) else (s.n == k)
+    if ncond is False:
+        return False
+    r = values_eq(ctx, list(s2.tail), o)
+    if r is False:
+        return False
+    if ncond is True:
+        return r
+    return _simplify(z3.And(ncond, r)) if r is not True else _simplify(ncond)
 
 
 def slist_materialize(ctx, l, inplace=True):
